@@ -452,8 +452,12 @@ func (m *Encoder) encodeTimeDate(v reflect.Value) error {
 
 // EncodeDecimal encodes an ion.Decimal to the output writer as an Ion decimal.
 func (m *Encoder) encodeDecimal(v reflect.Value) error {
-	d := v.Addr().Interface().(*Decimal)
-	return m.w.WriteDecimal(d)
+	if v.CanAddr() {
+		return m.w.WriteDecimal(v.Addr().Interface().(*Decimal))
+	}
+	// A Decimal passed (or nested in a struct passed) by value is not addressable.
+	d := v.Interface().(Decimal)
+	return m.w.WriteDecimal(&d)
 }
 
 // EncodeBigInt encodes a big.Int to the output writer as an Ion int.
